@@ -85,7 +85,7 @@ def run_case(case, built=None, keep_obs=False):
         gate_events=case.get('gate_events', 0.0), gate_saves=case.get('gate_saves', 0.0),
         write_once=case.get('write_once', True),
         collab_faults={(c, k): True for c, k in case.get('collab_faults', [])},
-        start_gated=case.get('start_gated', False), sequential=(shape == 'seq'))
+        start_gated=case.get('start_gated', False), sequential=(shape == 'seq'), pool_cap=case.get('pool_cap'))
     findings = []
     findings += monitors.check_termination(obs)
     fd, ndisp = monitors.check_dispatch(obs, prog)
